@@ -447,6 +447,13 @@ def _crossheading(args):
     r = impl.e2e_sx((uri, 'hier_element', prefix, text))
     if r != x:
         return ('bad', 'unparse then parse of %r gave %r - the crossheading round trip theorem predicts the same element' % (x, r), text)
+    # C05_crossheading_round_trip_any_eids: without an id, or with a stale one, the same element comes back
+    for a in ([], [['eId', 'stale_3']]):
+        y = ['E', 'crossHeading', a, [['T', t]]]
+        ty = impl.unparse_sx(y)
+        r = impl.e2e_sx((uri, 'hier_element', prefix, ty)) if isinstance(ty, str) else ty
+        if r != x:
+            return ('bad', 'unparse then parse of %r gave %r - C05_crossheading_round_trip_any_eids predicts %r' % (y, r, x), ty if isinstance(ty, str) else None)
     return ('ok', None, text)
 
 WITNESS_ATTR = [('p-title', ' a'), ('p-title', 'a\tb'), ('abbr-title', 'a ')]
